@@ -108,6 +108,8 @@ type ChildOpts struct {
 	Timeout    time.Duration // whole job; 0 = 10 min
 	// PerReply, when > 0, is the watchdog for the gap between two reply lines.
 	PerReply time.Duration
+	// MaxOutput: how much of the diagnostics output to keep (default 16000 bytes: head + tail).
+	MaxOutput int
 }
 
 // ChildResult is what came back from a child.
@@ -247,7 +249,11 @@ loop:
 	}
 	werr := cmd.Wait()
 	res.Output = other.String() + stderr.String()
-	if len(res.Output) > 16000 {
+	if max := o.MaxOutput; max > 16000 {
+		if len(res.Output) > max {
+			res.Output = res.Output[:max-6000] + "\n...[cut]...\n" + res.Output[len(res.Output)-6000:]
+		}
+	} else if len(res.Output) > 16000 {
 		// keep the head (fatal error / race report header) and the tail
 		res.Output = res.Output[:10000] + "\n...[cut]...\n" + res.Output[len(res.Output)-6000:]
 	}
